@@ -115,6 +115,9 @@ def run(res, replay=None):
         return
     # catalog persistence model (Model/CatalogRows.v, theorems of Props/C10Catalog.v) against the engine's two catalog heaps and
     # its by-name / by-oid maps over histories of CREATE TABLE (SQL and catalog API) and clean restarts (lib/catcorr.py, verifharness catrows)
+    # listed finding F-BTREE-RESTART (a B-tree index after a crash restart followed by a clean restart): replayed on every run
+    import c09
+    c09.btree_probe(res)
     import catcorr
     catcorr.run_corr(res, random.Random(res.seed * 7919 + 10), 40 if res.tier == "quick" else 600)
     rng = random.Random(res.seed)
